@@ -44,7 +44,7 @@ def si_alphabet(w, size):
         return [(1, 0, 1), (0, 0, 0), (0, 1, 1)]
     if w == 2:
         a = [(1, 0, 3), (0, 2, 2), (1, 1, 2), (2, 1, 3), (1, 3, 0), (1, 2, 1), (3, 0, 3)]
-        return a if size == "full" else a[:5]
+        return a if size == "full" else a[:4]
     a = [(1, 0, m), (0, 3, 3), (1, 1, 5), (2, 1, 5), (1, 6, 2), (2, 5, 1), (3, 0, 6), (1, 4, 7), (1, 0, 3), (4, 1, 5), (1, m, 0), (3, 6, 4)]
     return a if size == "full" else a[:7]
 
@@ -224,6 +224,21 @@ def solver_queries(space, r, part, case):
         except Exception as e:  # noqa: BLE001
             part.fail(f"{cls}:raised:{type(e).__name__}", case + "|" + cls, {"expr": show(r), "error": str(e)[:160]})
             continue
+        # signed extrema, asked after the unsigned ones (an answer must not be remembered across signedness)
+        try:
+            slo = s.min(r, signed=True, **kw)
+            shi = s.max(r, signed=True, **kw)
+            sV = sorted(refsem.sx(v, w) for v in V)
+            part.count("transitions", 2)
+            part.count("solver_queries", 2)
+            if slo is not None and refsem.sx(slo & mask(w), w) > sV[0]:
+                part.fail(f"{cls}:signed-min-excludes", case + "|" + cls, {"expr": show(r), "min": slo, "true_signed_min": sV[0]})
+            if shi is not None and refsem.sx(shi & mask(w), w) < sV[-1]:
+                part.fail(f"{cls}:signed-max-excludes", case + "|" + cls, {"expr": show(r), "max": shi, "true_signed_max": sV[-1]})
+        except ClaripyError:
+            part.count("solver_declined")
+        except Exception as e:  # noqa: BLE001
+            part.fail(f"{cls}:raised:{type(e).__name__}", case + "|" + cls + "|signed", {"expr": show(r), "error": str(e)[:160]})
         if lo is not None and (lo & mask(w)) > V[0]:
             part.fail(f"{cls}:min-excludes", case + "|" + cls, {"expr": show(r), "min": lo, "true_min": V[0]})
         if hi is not None and (hi & mask(w)) < V[-1]:
@@ -245,6 +260,7 @@ def _shard(item):
     from ..common import Part as P
 
     w, pairs, depth, full, solver = item
+    solver_full = full  # the thorough configurations (full partner alphabets) also get the full set of Bool partners
     part = P()
     for sx_, sy_ in pairs:
         space = exprspace.Space(w)
@@ -256,6 +272,10 @@ def _shard(item):
         space._c24_gamma = (S.gamma(six), S.gamma(siy))
         space._c24_label = f"x={S.key(six)},y={S.key(siy)}"
         space._c24_spec = [list(sx_), list(sy_)]
+        # Boolean partners that are determined / undetermined only through the annotations (for Bool ==, !=, And, Or, If)
+        gy = sorted(S.gamma(siy))
+        if gy:
+            space.extra_bool_partners = [claripy.UGE(ay, gy[0]), ax == ay] if not solver_full else [claripy.UGE(ay, gy[0]), claripy.ULT(ay, gy[0]), claripy.ULE(ay, gy[-1]), ax == ay, claripy.ULT(ax, ay)]
         opts = {"solver": solver}
         level0 = list(space.leaves()) + [claripy.BVV(c, w) for c in space.consts(w)]
         seen = {id(s) for s in level0}
